@@ -26,7 +26,8 @@
 #include <string>
 #include <vector>
 
-extern "C" void rd_ignore(int) __attribute__((weak));   // race detector (if linked): logging is not program behaviour
+extern "C" void rd_ignore(int) __attribute__((weak));
+extern "C" void rd_atomic_yield(int) __attribute__((weak));   // race detector (if linked): atomic operations become scheduling points   // race detector (if linked): logging is not program behaviour
 
 namespace hr {
 
